@@ -2,61 +2,19 @@
     AddImport, AddPeg/AddState, AddRule ... AddExpression around the expression calls). *)
 From PegV Require Import Base.Tac Base.ListX Spec.Syntax Model.Calls Model.Front Proofs.FrontProofs
   Reader.Base Reader.Lex Reader.Chars Reader.Lits Reader.Expr Reader.Bridge Reader.File.
+From PegV Require Export Reader.BridgeDefs.
 Local Open Scope Z_scope.
-
-Inductive fnode :=
-| NComment (s : list rune) | NSpace (s : list rune) | NPackage (s : list rune)
-| NImportAlias (s : list rune) | NImport (s : list rune)
-| NPeg (name state : list rune)
-| NRule (name : list rune) (e : expr).
 
 (** the deque of tree/peg.go: finished nodes at the back; at the front the rule or Peg node under
     construction and the expression stack *)
-Record fstate := { back : list fnode; pend : option (list rune); stk : list expr; pegn : option (list rune) }.
-Definition finit : fstate := {| back := []; pend := None; stk := []; pegn := None |}.
-
 Section FB.
 Variable nm : list rune -> nat.
 Variable ak : list rune -> nat.
-
-Definition push_back (s : fstate) (n : fnode) : fstate :=
-  {| back := back s ++ [n]; pend := pend s; stk := stk s; pegn := pegn s |}.
-
-Definition fstep (s : fstate) (c : call) : option fstate :=
-  match bop_of nm ak c with
-  | Some o => match bstep (stk s) o with
-              | Some stk' => Some {| back := back s; pend := pend s; stk := stk'; pegn := pegn s |}
-              | None => None
-              end
-  | None =>
-      match c with
-      | (CAddComment, t) => Some (push_back s (NComment t))
-      | (CAddSpace, t) => Some (push_back s (NSpace t))
-      | (CAddPackage, t) => Some (push_back s (NPackage t))
-      | (CAddImportAlias, t) => Some (push_back s (NImportAlias t))
-      | (CAddImport, t) => Some (push_back s (NImport t))
-      | (CAddPeg, t) => match pegn s with None => Some {| back := back s; pend := pend s; stk := stk s; pegn := Some t |} | _ => None end
-      | (CAddState, t) => match pegn s with
-                          | Some n => Some {| back := back s ++ [NPeg n t]; pend := pend s; stk := stk s; pegn := None |}
-                          | None => None
-                          end
-      | (CAddRule, t) => match pend s, stk s with
-                         | None, [] => Some {| back := back s; pend := Some t; stk := []; pegn := pegn s |}
-                         | _, _ => None
-                         end
-      | (CAddExpression, _) => match pend s, stk s with
-                               | Some n, [e] => Some {| back := back s ++ [NRule n e]; pend := None; stk := []; pegn := pegn s |}
-                               | _, _ => None
-                               end
-      | _ => None
-      end
-  end.
-
-Fixpoint frun (cs : list call) (s : fstate) : option fstate :=
-  match cs with
-  | [] => Some s
-  | c :: cs' => match fstep s c with Some s' => frun cs' s' | None => None end
-  end.
+Notation fstep := (BridgeDefs.fstep nm ak).
+Notation frun := (BridgeDefs.frun nm ak).
+Notation dnode := (BridgeDefs.dnode nm ak).
+Notation dnodes := (BridgeDefs.dnodes nm ak).
+Notation file_nodes := (BridgeDefs.file_nodes nm ak).
 
 Lemma frun_app a b s : frun (a ++ b) s = match frun a s with Some s' => frun b s' | None => None end.
 Proof. revert s; induction a as [|c a IH]; intros s; cbn [app frun]; [reflexivity|]. destruct (fstep s c); auto. Qed.
@@ -75,25 +33,6 @@ Proof.
     cbn [frun brun]. unfold fstep. rewrite Eo. destruct (bstep (stk s) o) as [stk'|]; [|reflexivity].
     rewrite (IH ops' _ eq_refl). reflexivity.
 Qed.
-
-(** what a file denotes *)
-Definition hnode (h : hitem) : fnode := match h with HCmt _ body _ => NComment body | HSp run => NSpace run end.
-Definition innodes (n : iname) : list fnode :=
-  (match in_alias n with Some (id, _) => [NImportAlias id] | None => [] end) ++ [NImport (in_path n)].
-Definition impnodes (i : imp) : list fnode :=
-  match i with ISingle _ n _ => innodes n | IMulti _ _ items _ => flat_map (fun ns : iname * list rune => innodes (fst ns)) items end.
-Definition dnode (d : cdef) : option fnode :=
-  match elab (erase nm ak (d_body d)) with Some e => Some (NRule (d_name d) e) | None => None end.
-Fixpoint dnodes (l : list cdef) : option (list fnode) :=
-  match l with
-  | [] => Some []
-  | d :: l' => match dnode d, dnodes l' with Some n, Some r => Some (n :: r) | _, _ => None end
-  end.
-Definition file_nodes (f : cfile) : option (list fnode) :=
-  match dnodes (f_defs f) with
-  | Some ds => Some (map hnode (f_header f) ++ [NPackage (f_pkg f)] ++ flat_map impnodes (f_imports f) ++ [NPeg (f_peg f) (f_state f)] ++ ds)
-  | None => None
-  end.
 
 Lemma frun_header l s : frun (map hcall l) s = Some {| back := back s ++ map hnode l; pend := pend s; stk := stk s; pegn := pegn s |}.
 Proof.
